@@ -6,14 +6,15 @@ VERIF=${VERIF:-$(cd "$(dirname "$0")/.." && pwd)}
 REPO=${REPO:-/repo}
 export GOFLAGS=-mod=mod GOPROXY=off GOSUMDB=off GOTOOLCHAIN=local CGO_ENABLED=${CGO_ENABLED:-1}
 mkdir -p "$VERIF/.build"
-exec 9>"$VERIF/.build/.lock"
-flock 9
 # bin/seedtest holds this lock exclusively while /repo carries a seeded defect; every other build waits (shared) so that a check
 # started meanwhile from another copy of /verif never compiles the mutated tree.  The lock file is created on demand.
+# (Taken before the build lock: seedtest's own builds skip it and must be able to get the build lock.)
 if [ -z "$VERIF_SEEDTEST" ]; then
   exec 8>/tmp/.verif-repo.lock
   flock -s 8
 fi
+exec 9>"$VERIF/.build/.lock"
+flock 9
 cd "$VERIF/harness"
 # go.mod = the repository's own go.mod (so the unpruned module graph resolves offline) + replace.
 {
